@@ -287,3 +287,8 @@ PLAN["C13"]["trusted_base"] = PLAN["C13"]["trusted_base"] + LIB_IO
 PLAN["C08"]["units"] = PLAN["C08"]["units"] + [HP + "_handle_events"]
 # C10 "compressed or not": the extension object a connection gets is made in Handshake.accept
 PLAN["C10"]["units"] = PLAN["C10"]["units"] + [WSM + "Handshake.accept"]
+PLAN["C19"]["units"] = PLAN["C19"]["units"] + ["hypercorn.config:Config._set_quic_addresses"]
+PLAN["C01"]["units"] = PLAN["C01"]["units"] + [UT + "parse_socket_addr"]
+# C02 "followed only by the server's own date/server/alt-svc/connection headers": what
+# Config.response_headers returns (and that it keeps no state between calls: frame obligation)
+PLAN["C02"]["units"] = PLAN["C02"]["units"] + ["hypercorn.config:Config.response_headers"]
